@@ -106,6 +106,37 @@ class Findings:
             self.add("wf", "structural invariant %s violated after %s" % (i, short(o.line)), oi, known)
 
 
+def unjustified_nospace(jd, oi, o):
+    """NotEnoughSpace from create_file / create_dir / rename (op oi of a script judged with the info flag): justified only when
+    the clusters the call needs are not there, or when the destination is the fixed root and no run of free slots is long enough
+    for the entry (room computed by the judge from the raw root region: `rootroom`).  A failed call must also give back what
+    it allocated.  Returns a message for an unjustified outcome, else None."""
+    info = jd.info.get(oi)
+    name = opname(o)
+    if info is None or o.kind != "err" or o.payload.split(" ")[0] != "NotEnoughSpace" or name not in ("create_file", "create_dir", "rename"):
+        return None
+    t = o.line.split(" ")
+    try:
+        path = bytes.fromhex(t[4] if name == "rename" else t[2]).decode("utf-8")
+        dh = t[3] if name == "rename" else t[1]
+    except (ValueError, IndexError):
+        return None
+    prev = jd.info.get(oi - 1)
+    if prev is not None and prev["free"] != info["free"]:
+        return ("%s failed with NotEnoughSpace but the number of free entries in the raw table went from %s to %s "
+                "(a failed call must give back what it allocated)" % (short(o.line, 60), prev["free"], info["free"]))
+    final = path.strip("/").split("/")[-1]
+    needed = (len(final.encode("utf-16-le")) // 2 + 12) // 13 + 1
+    root_possible = dh == "0" and "/" not in path.strip("/") and info["bits"] != "32"
+    need_clusters = 2 if name == "create_dir" else 1
+    room = int(info.get("rootroom", "-1"))
+    if int(info["free"]) >= need_clusters and (not root_possible or room >= needed):
+        return "%s -> NotEnoughSpace although the raw table has %s free clusters%s" % (
+            short(o.line, 60), info["free"],
+            " and the fixed root has a run of %d free slots (the entry needs %d)" % (room, needed) if root_possible else "")
+    return None
+
+
 def report(rep, jd, f, observations, label):
     """turns the findings of one script into violations / known findings for the observations of this property"""
     ok = True
